@@ -67,6 +67,13 @@ def MATCH(lookup_value, lookup_array, match_type=1):
     return index if index else error.NOT_AVAILABLE
 
 
+def _item(seq, num):
+    # 1-based element access that never wraps around or indexes into a text value
+    if not isinstance(seq, list) or num < 1 or num > len(seq):
+        raise IndexError(num)
+    return seq[num - 1]
+
+
 @dispatcher.register_for('INDEX')
 def INDEX(arr, row_num=DEFAULT, column_num=DEFAULT, area_num=DEFAULT):
     if row_num is None:
@@ -94,19 +101,19 @@ def INDEX(arr, row_num=DEFAULT, column_num=DEFAULT, area_num=DEFAULT):
     try:
         if row_num is DEFAULT:
             if bidimensional:
-                return [row[column_num - 1] for row in arr]
+                return [_item(row, column_num) for row in arr]
             else:
-                return arr[column_num - 1]
+                return _item(arr, column_num)
         if column_num is DEFAULT:
-            return arr[row_num - 1]
+            return _item(arr, row_num)
         if row_num == 0 and column_num == 0:
             return arr
         if row_num == 0:
-            return [row[column_num - 1] for row in arr]
+            return [_item(row, column_num) for row in arr]
         if column_num == 0:
-            return arr[row_num - 1]
+            return _item(arr, row_num)
         if not bidimensional and column_num == 1:
-            return arr[row_num -1]
-        return arr[row_num - 1][column_num - 1]
+            return _item(arr, row_num)
+        return _item(_item(arr, row_num), column_num)
     except (IndexError, TypeError):
         return error.REF
